@@ -223,6 +223,8 @@ CopyRead(st, cfg, op) ==
 CopyObject(st, cfg, op) ==
   LET e == Ensure(st, cfg, op.b) IN
   IF ~e.ok THEN Err(st, "NoSuchBucket")
+  ELSE IF "srcInternal" \in DOMAIN op       \* the source names a backend's own storage: nothing there (C10)
+    THEN ErrIn(e.st, {"NoSuchBucket", "NoSuchKey"})
   ELSE LET rd == CopyRead(e.st, cfg, op) IN
        IF ~rd.ok THEN Err(e.st, rd.code)
        ELSE LET meta == op.meta @@ rd.v.meta IN     \* the new version's id is not revealed
